@@ -296,6 +296,15 @@ pub fn run_c10(ctx: &mut Ctx, from: u64, to: u64) {
         let class = *rng.pick(&[CorpusClass::Normal, CorpusClass::Normal, CorpusClass::PartialAnnotation, CorpusClass::AllUnknown, CorpusClass::SingleChar, CorpusClass::OnlyWordBoundaries]);
         let tags = rng.chance(1, 3);
         let mut tc = gen_train_case(&mut rng, 0, 4, class, tags);
+        if k % 90 == 29 {
+            // several hundred dictionary-word occurrences of one length bucket around the same boundary
+            let x = tc.corpus.first().and_then(|s| s.chars.first().copied()).unwrap_or('あ');
+            let n = rng.urange(56, 64);
+            tc.corpus.push(RefSentence { chars: vec![x; n], labels: (0..n - 1).map(|_| rng.weighted(&[5, 4, 1]) as u8).collect(), tags: vec![vec![]; n] });
+            tc.cfg.dict = (2..=24).map(|l| std::iter::repeat(x).take(l).collect::<String>()).collect();
+            tc.cfg.bucket = 1;
+            ctx.count("boundaries_touched_by_more_than_255_dictionary_occurrences", 1);
+        }
         if k % 30 == 11 {
             // a sentence that is exactly the shortest dictionary word (no shorter word in the dictionary)
             let alpha: Vec<char> = tc.corpus.iter().flat_map(|s| s.chars.iter().copied()).chain("ab".chars()).collect();
@@ -514,6 +523,17 @@ pub fn run_c09(ctx: &mut Ctx, from: u64, to: u64) {
             tc.solver = 3;
             tc.cost = 1.0 / 64.0;
             ctx.count("trainings_constructed_so_that_an_ngram_cancels_its_suffix", 1);
+        }
+        if k % 3 == 2 && k % 50 != 17 {
+            // an evaluation sentence with characters of every type (also types the corpus, hence the model, never saw)
+            let mut t: Vec<char> = vec!['7', 'z', 'あ', 'ア', '人', '。'];
+            if let Some(s) = tc.corpus.first() {
+                for (i, &c) in s.chars.iter().take(6).enumerate() {
+                    t.insert(2 * i + 1, c);
+                }
+            }
+            tc.eval.push(t);
+            ctx.count("evaluation_sentences_with_all_six_character_types", 1);
         }
         if k % 250 == 21 {
             // one evaluation sentence with character positions beyond 65535, training patterns near its end
@@ -1111,5 +1131,42 @@ pub fn run_c12(ctx: &mut Ctx, from: u64, to: u64) {
                 ("tag_models_in_trained_model", J::A(mir.tag_models.iter().map(|t| J::s(format!("{:?} -> {:?}", t.token, t.tags))).collect())),
             ]));
         }
+    }
+}
+
+// ------------------------------------------------------------------------------------------ C13 (trained models)
+
+/// Trains small models (windows 1..3, often with a character window narrower than the type window) and stores
+/// them with their evaluation texts for the feature-matrix builds.
+pub fn run_c13t(ctx: &mut Ctx, from: u64, to: u64) {
+    for k in from..to {
+        ctx.begin_case(k);
+        let mut rng = Rng::new(case_seed(ctx.seed, "C13t", k));
+        let mut tc = gen_train_case(&mut rng, 1, 3, CorpusClass::Normal, false);
+        if k % 2 == 0 && tc.cfg.char_w >= tc.cfg.type_w {
+            std::mem::swap(&mut tc.cfg.char_w, &mut tc.cfg.type_w);
+        }
+        ctx.flag("trained_configs_with_char_window_below_type_window", tc.cfg.char_w < tc.cfg.type_w);
+        let path = format!("{}/trained-{k}.bin", ctx.scratch);
+        let _ = std::fs::remove_file(&path);
+        let r = guard(|| train_case(&tc));
+        ctx.eval(1);
+        let Ok(Ok(tr)) = r else {
+            ctx.count("training_returned_error", 1);
+            continue;
+        };
+        let Ok(bytes) = tr.model.to_vec() else { continue };
+        let mut blob = vec![];
+        blob.extend_from_slice(&(bytes.len() as u32).to_le_bytes());
+        blob.extend_from_slice(&bytes);
+        let texts: Vec<String> = tc.eval.iter().map(|t| to_string(t)).filter(|t| !t.is_empty() && !t.contains('\0')).collect();
+        blob.extend_from_slice(&(texts.len() as u32).to_le_bytes());
+        for t in &texts {
+            blob.extend_from_slice(&(t.len() as u32).to_le_bytes());
+            blob.extend_from_slice(t.as_bytes());
+        }
+        std::fs::write(&path, blob).expect("write trained model");
+        ctx.count("trained_models_stored_for_the_feature_matrix", 1);
+        ctx.nontrivial(digest(&tc));
     }
 }
